@@ -175,8 +175,32 @@ def r14_4(ctx):
                     if isinstance(b, list) and n in b:
                         blk = b
                 ok = False
+
+                def validating_helper(call):
+                    """helper(word, ..) whose body calls Color.parse(<its first parameter>) inside a try that converts ColorParseError"""
+                    if not (isinstance(call, ast.Call) and isinstance(call.func, ast.Name) and call.args and norm(call.args[0]) == src):
+                        return False
+                    h = mod.functions.get(f"Style.parse.<locals>.{call.func.id}") or mod.functions.get(call.func.id)
+                    if h is None or not h.params:
+                        return False
+                    p0 = h.params[0]
+                    for t_ in walk_local(h.node):
+                        if isinstance(t_, ast.Try) and any(isinstance(c, ast.Call) and norm(c.func) == "Color.parse" and c.args and norm(c.args[0]) == p0 for s_ in t_.body for c in ast.walk(s_)):
+                            if any("ColorParseError" in EscapeAnalysis.handler_types(hh) and any(isinstance(x, ast.Raise) for x in hh.body) for hh in t_.handlers):
+                                return True
+                    return False
+                # `color = check_color(word, ..)`: the helper validates its first parameter and returns it
+                if isinstance(n.value, ast.Call) and isinstance(n.value.func, ast.Name) and n.value.args:
+                    src = norm(n.value.args[0])
+                    h_ = mod.functions.get(f"Style.parse.<locals>.{n.value.func.id}") or mod.functions.get(n.value.func.id)
+                    if h_ is not None and h_.params and validating_helper(n.value):
+                        rets_ = [r for r in walk_local(h_.node) if isinstance(r, ast.Return)]
+                        if rets_ and all(r.value is not None and norm(r.value) == h_.params[0] for r in rets_):
+                            ok = True
                 if blk is not None:
                     for prev in blk[: blk.index(n)]:
+                        if isinstance(prev, ast.Expr) and validating_helper(prev.value):
+                            ok = True
                         if isinstance(prev, ast.Try) and any(isinstance(c, ast.Call) and norm(c.func) == "Color.parse" and c.args and norm(c.args[0]) == src for s_ in prev.body for c in ast.walk(s_)):
                             if any("ColorParseError" in EscapeAnalysis.handler_types(h) and any(isinstance(x, ast.Raise) for x in h.body) for h in prev.handlers):
                                 # the validated name must not be rebound between the try and the store
@@ -193,10 +217,9 @@ def r14_4(ctx):
         ok = isinstance(a, ast.Subscript) and norm(a.value) == "SGR_STYLE_MAP"
         ctx.check(ok, dl.fq, short(c), f"{am.relpath}:{c.lineno}", "decoder parses only SGR_STYLE_MAP values", f"decoder calls Style.parse on `{norm(a) if a is not None else None}`, which is not a value of the literal SGR_STYLE_MAP: arbitrary input could raise StyleSyntaxError")
     table = literal(am.global_assign("SGR_STYLE_MAP"))
-    vocab = None
-    for n in walk_local(sp.node):
-        if isinstance(n, ast.Assign) and isinstance(n.value, ast.Dict) and len(n.value.keys) >= 13:
-            vocab = set(literal(n.value))
+    from .common import style_parse_vocabulary
+    _tv = style_parse_vocabulary(ctx)
+    vocab = set(_tv[0]) if _tv is not None else None
     if vocab is None:
         raise AnchorVanished("Style.parse vocabulary not found")
     names = set(literal(ctx.repo.mod("color").global_assign("ANSI_COLOR_NAMES")))
